@@ -140,6 +140,10 @@ let run (x : sx) : string = match x with
   | L [A "streq"; a; b] -> pbool (M.str_eqb (expr a) (expr b))
   | L [A "factkey"; a; b] -> pbool (M.fact_key_eqb (expr a) (expr b))
   | L [A "cbound"; e; x] -> popt (fun (l, h) -> "(" ^ pob l ^ " " ^ pob h ^ ")") (M.constant_bound (env e) (expr x))
+  | L [A "loopiter"; e; n; i; lo; hi] ->
+      (match M.add_loop_iter (env e) (sym_of n i) (expr lo) (expr hi) with
+       | Some ((_, (l, h)) :: _) -> "(" ^ pob l ^ " " ^ pob h ^ ")"
+       | _ -> "crash")
   | L [A "checks"; e; c0; A o0; x; A o1; c2] ->
       popt pbool (M.check_expr_bounds (env e) (zs c0) (cmp o0) (expr x) (cmp o1) (zs c2))
   | _ -> failwith "unknown job"
